@@ -8,7 +8,7 @@
    also when added by an extension), a missing or undefined root type, an object without fields, a
    union containing itself (also through an extension), a repeated enum value, a scalar without
    implementation and a non-awaitable directive hook each make the build fail; the engine's
-   interface field-type check accepts only what the specification's covariance rule accepts.
+   interface field-type check is exactly the specification's covariance rule (IsValidImplementationFieldType).
    PARTIAL: completeness for the remaining interface clauses (missing field / argument, extra
    required argument, non-interface) and for every kind of invalid extension is decided per
    rewritten model by the check (specification predicates in Coq vs create_engine), not proved. *)
@@ -28,16 +28,16 @@ Proof. exact (build_rejects_defects s g0). Qed.
 Theorem C12_validators_report_defects g : defect_after_merge g = true -> validate g <> Some [].
 Proof. exact (defect_rejected g). Qed.
 
-Theorem C12_interface_type_check_sound g ft it :
-  wf_ty ft = true -> same_as_interface_type g ft it = Some true -> valid_impl_type g ft it = true.
-Proof. intros H. exact (interface_type_check_sound g ft H it). Qed.
+Theorem C12_interface_type_check_exact g ft it :
+  same_as_interface_type g ft it = Some (valid_impl_type g ft it).
+Proof. exact (interface_type_check_exact g ft it). Qed.
 
 (* non-vacuity *)
 Definition T (n : string) (d : typedef) : tdecl := {| td_name := n; td_def := d; td_dirs := [] |}.
 Definition bad : sdl :=
   {| s_types := [T "Query" (DObject [] [{| fd_name := "a"; fd_type := TList (TNonNull (TNamed "Nope")); fd_args := [] |}]);
                  T "U" (DUnion ["Query"])];
-     s_dirdefs := []; s_exts := [XType "U" (DUnion ["U"]) []]; s_schema := []; s_schema_dirs := []; s_scalar_impls := [] |}.
+     s_dirdefs := []; s_exts := [XType "U" (DUnion ["U"]) []]; s_schema := []; s_schema_dirs := []; s_scalar_impls := []; s_member_dirs := [] |}.
 Example C12_bad_has_defects :
   exists g0, initial bad = inl g0 /\ defect_after_merge (fold_left apply_ext (s_exts bad) g0) = true.
 Proof. vm_compute. eexists. split; reflexivity. Qed.
@@ -47,4 +47,4 @@ Proof. vm_compute. reflexivity. Qed.
 Print Assumptions C12_duplicate_definitions_rejected.
 Print Assumptions C12_defective_schema_rejected.
 Print Assumptions C12_validators_report_defects.
-Print Assumptions C12_interface_type_check_sound.
+Print Assumptions C12_interface_type_check_exact.
